@@ -149,6 +149,14 @@ def oracle(c, its, end, cellfiles, facefiles, rows, colnames):
         alive = its[j]["before"]
         if int(r[0]) != len(alive):
             return "file_describes_cells_alive_when_written (result_%d.vtk has %s cells, %d were alive at iteration %d)" % (n, r[0], len(alive), j)
+        if "I" in r:
+            fid = r[r.index("I") + 1:]
+            try:
+                fid = [int(float(x)) for x in fid]
+            except ValueError:
+                return "cell_file_parseable (result_%d.vtk: cell_id array %s)" % (n, fid[:6])
+            if fid != [a for a, _ in alive]:
+                return "file_describes_cells_alive_when_written (result_%d.vtk names the cells %s, alive at iteration %d were %s)" % (n, fid[:12], j, [a for a, _ in alive][:12])
     # statistics
     if not rows:
         return "statistics_header_present"
@@ -297,9 +305,71 @@ def run(ck):
                             d = "statistics record of iteration %d differs (model ids %s time %s, implementation %s)" % (i_, p, tm, got[i_][:6]); break
             if d:
                 broken.append((ci, d))
+    # ---- the composition of the phases (Iteration.v, run in the order generated from src/solver.cpp): from the observed
+    # division / removal events the model predicts, per iteration, the population afterwards, the cells a statistics record
+    # lists and the cells a mesh file describes
+    iq = []; iqi = []
+    for ci, (its, end, cellfiles, facefiles, rows) in parsed.items():
+        if end["exc"] != "-" or not its:
+            continue
+        ids0 = [a for a, _ in its[0]["before"]]
+        if ids0 != list(range(len(ids0))):
+            continue
+        t = [str(len(ids0)), str(len(its))]
+        for it in its:
+            before = [a for a, r in it["before"]]; ready = {a for a, r in it["before"] if r}
+            after = [c_["id"] for c_ in it["after"]]
+            new = [a for a in after if a not in before]; vanished = [a for a in before if a not in after]
+            mothers = ([a for a in vanished if a in ready] if (it["k"] % 5 == 0 and len(new) >= 2) else [])[:len(new) // 2]
+            # daughters that were removed in the same iteration are invisible here; such runs are left to the other comparisons
+            removed = [a for a in vanished if a not in mothers]
+            t += [str(len(mothers))] + [str(before.index(a)) for a in mothers] + [str(len(removed))] + [str(a) for a in removed] + ["0"]
+        iq.append(" ".join(t)); iqi.append(ci)
+    niter_model = 0
+    if iq:
+        mo = vlib.run([model, "iteration"], input="\n".join(iq) + "\n", check=True, timeout=1200).stdout.strip().split("\n")
+        for ci, l in zip(iqi, mo):
+            its, end, cellfiles, facefiles, rows = parsed[ci]
+            if not l.startswith("OK"):
+                broken.append((ci, "iteration model: " + l[:80])); continue
+            secs = [x.strip() for x in l.split("|")[1:]]
+            hdr = rows[0].rstrip(",").split(",") if rows else []
+            got = {}
+            for r in rows[1:]:
+                f = dict(zip(hdr, r.rstrip(",").split(",")))
+                got.setdefault(int(f["iteration"]), []).append(int(f["cell_id"]))
+            counters = [it["file"] for it in its] + [end["file"]]
+            nfile = {n: (int(r[0]) if r and r[0].isdigit() else -1) for n, r in cellfiles}
+            d = None
+            for j, (it, sec) in enumerate(zip(its, secs)):
+                pop_, save_, stats_, uses_, cnt_ = [x.strip() for x in sec.split(";")]
+                lst = lambda x: [int(y) for y in x.split(",")] if x and x != "-" else []
+                if lst(pop_) != [c_["id"] for c_ in it["after"]]:
+                    if len(lst(pop_)) == len(it["after"]) and sorted(lst(pop_)) != sorted(c_["id"] for c_ in it["after"]):
+                        d = "population after iteration %d (model %s, implementation %s)" % (j, lst(pop_)[:12], [c_["id"] for c_ in it["after"]][:12]); break
+                    d = "population after iteration %d (model %s, implementation %s)" % (j, lst(pop_)[:12], [c_["id"] for c_ in it["after"]][:12]); break
+                if uses_ != "1":
+                    d = "a phase of iteration %d dereferences list indices that are not positions (model)" % j; break
+                if (stats_ != "-") != (j in got) and not (j == end["iter"]):
+                    d = "statistics record of iteration %d: model %s, implementation %s" % (j, "records" if stats_ != "-" else "does not record", "records" if j in got else "does not record"); break
+                if stats_ != "-" and j in got and got[j][:len(lst(stats_))] != lst(stats_):
+                    d = "cells listed by the statistics record of iteration %d (model %s, implementation %s)" % (j, lst(stats_)[:12], got[j][:12]); break
+                written = [k for k in range(counters[j] + 1, counters[j + 1] + 1)]
+                if written and save_ == "-":
+                    d = "mesh files %s written at iteration %d, the model writes none" % (written, j); break
+                for k in written:
+                    if nfile.get(k, -1) != len(lst(save_)):
+                        d = "mesh file %d describes %d cells, the model %d" % (k, nfile.get(k, -1), len(lst(save_))); break
+                if d:
+                    break
+            if d:
+                broken.append((ci, "Iteration.v (phases in source order): " + d))
+            else:
+                niter_model += len(its)
+    ck.notes["iterations_reproduced_by_the_phase_composition_model"] = niter_model
     ck.cov["evaluations"] = len(cases)
     ck.cov["distinct_nontrivial"] = nontriv
-    ck.cov["traces_validated_against_impl"] = len(q) - len(broken)
+    ck.cov["traces_validated_against_impl"] = len(q) + len(iq) - len(broken)
     ck.notes["input_distribution"] = dist
     ck.notes["runs_stopped_after_%d_s_without_conclusion" % RUN_TIMEOUT] = len(timeouts)
     ck.notes["runs_aborted_by_an_exception_of_the_dynamics"] = aborted
